@@ -74,6 +74,57 @@ func libFuncs(c *core.Ctx) []*ssa.Function {
 	return out
 }
 
+// atomicOnlyResult: every use of helper in the library is a direct call whose result is used only as the address operand of
+// sync/atomic functions. It returns the number of such call sites, or a description of the first other use.
+func atomicOnlyResult(helper *ssa.Function, fns []*ssa.Function) (int, string, []*ssa.Call) {
+	n := 0
+	var sites []*ssa.Call
+	bad := ""
+	if helper.Object() != nil && helper.Object().Exported() {
+		return 0, "is exported, so callers outside the library can use it", nil
+	}
+	for _, fn := range fns {
+		an.AllInstrs(fn, func(in ssa.Instruction) {
+			cc := an.CallOf(in)
+			for _, op := range in.Operands(nil) {
+				if op == nil || *op != ssa.Value(helper) {
+					continue
+				}
+				if cc == nil || cc.Value != ssa.Value(helper) {
+					bad = "is used as a function value in " + fn.Name()
+					return
+				}
+			}
+			call, ok := in.(*ssa.Call)
+			if !ok || an.StaticCallee(&call.Call) != helper {
+				if cc != nil && an.StaticCallee(cc) == helper {
+					bad = "is deferred or spawned in " + fn.Name()
+				}
+				return
+			}
+			n++
+			sites = append(sites, call)
+			if call.Referrers() == nil {
+				return
+			}
+			for _, ref := range *call.Referrers() {
+				if _, isDbg := ref.(*ssa.DebugRef); isDbg {
+					continue
+				}
+				use, ok := ref.(*ssa.Call)
+				cal := (*ssa.Function)(nil)
+				if ok {
+					cal = an.StaticCallee(&use.Call)
+				}
+				if cal == nil || cal.Pkg == nil || cal.Pkg.Pkg.Path() != "sync/atomic" || len(use.Call.Args) == 0 || use.Call.Args[0] != ssa.Value(call) {
+					bad = "used in " + fn.Name() + " other than as the operand of a sync/atomic call"
+				}
+			}
+		})
+	}
+	return n, bad, sites
+}
+
 func runC20(c *core.Ctx, o Options) {
 	c.Explanation = "Lockset discipline, decided for all schedules at once: (1) every access to a field of the guarded-by table (Session.state←stateMu, HandlerPool.handlers←mu, EventHandlerPool.pool←mu, Timer.lastUpdate←mu, Storage.messages←mu) " +
 		"in the library packages (root, session, storages/memory, utils) executes with the must-held lockset containing the guard on the same object — exclusive mode for writes, map updates and deletes — unless the object is still private to its constructor; " +
@@ -111,6 +162,20 @@ func runC20(c *core.Ctx, o Options) {
 			}
 			nAcc++
 			owner := fieldOwner(a.Field)
+			if atomics[a.Field] && a.How == "addr-returned" {
+				// a selector helper: its result may be used only as the address operand of sync/atomic calls, at every use of the helper
+				n, bad, sites := atomicOnlyResult(fn, fns)
+				for _, site := range sites {
+					c.Ob("atomic", site.Parent().Name(), fmt.Sprintf("%s.%s through %s()", owner, a.Field.Name(), fn.Name()), site.Pos()).Ok("the selected counter's address is the operand of a sync/atomic call")
+				}
+				ob := c.Ob("atomic", fn.Name(), fmt.Sprintf("%s.%s %s", owner, a.Field.Name(), a.How), a.Instr.Pos())
+				if bad == "" && n > 0 {
+					ob.Ok("the address returned is handed only to sync/atomic, at %d call sites", n)
+				} else {
+					ob.Fail("the address of %s.%s is returned by %s and then %s: plain access through it would race with the atomic updates", owner, a.Field.Name(), fn.Name(), bad)
+				}
+				continue
+			}
 			if atomics[a.Field] {
 				c.Check(a.Atomic, "atomic", fn.Name(), fmt.Sprintf("%s.%s %s", owner, a.Field.Name(), a.How), a.Instr.Pos(),
 					"through sync/atomic", fmt.Sprintf("%s.%s is updated with sync/atomic elsewhere but accessed here by a plain %s: mixed atomic/plain access is a data race", owner, a.Field.Name(), a.How))
